@@ -203,6 +203,129 @@ func (deadConn) SetDeadline(time.Time) error      { return nil }
 func (deadConn) SetReadDeadline(time.Time) error  { return nil }
 func (deadConn) SetWriteDeadline(time.Time) error { return nil }
 
+// ---- script cache lost / server restarted with its data ---------------------
+//
+// A Redis server can lose its SCRIPT CACHE while it keeps its data and stays reachable:
+// SCRIPT FLUSH by an operator, a failover to a replica, a restart with persistence behind
+// a proxy that keeps the clients' connections.  That is no outage and no store error: the
+// store answers every command; a client that sends EVALSHA is told NOSCRIPT and has to send
+// the script itself (go-redis' Script.Run does).  So in every member - also the fault-free
+// ones - the oracles stay as they are: exact period codes, exact joint bucket, no error and
+// no local answer while nothing failed.  cacheLoss draws when it happens: never (draw 0), at
+// instants drawn on the clock (a controller task), and/or at the instant a command leaves a
+// client, i.e. just before that command reaches the server (between the handshake and the
+// EVALSHA, between the NOSCRIPT reply and the EVAL that follows, before a ping) - since the
+// server executes a command at one instant these are all the instants a client can tell apart.
+// Fault members also draw restarts with persisted data (simredis.Restart): every established
+// connection is reset, commands in flight fail, the script cache is empty, the data stays.
+type cacheLoss struct {
+	r         *simrt.Run
+	srv       *simredis.Server
+	perMille  int             // per command leaving a client: the cache is lost just before the command reaches the server
+	gaps      []time.Duration // losses at instants on the clock: idle time before each
+	restarts  []time.Duration // (fault members) restarts with persisted data: idle time before each
+	lost      int             // times the cache was lost so far (restarts included)
+	onRestart func()
+}
+
+func drawCacheLoss(r *simrt.Run, srv *simredis.Server, faulty bool) *cacheLoss {
+	t := r.Tape
+	l := &cacheLoss{r: r, srv: srv}
+	gap := func() time.Duration {
+		switch t.Intn(3) {
+		case 0:
+			return time.Duration(t.Intn(50)) * time.Millisecond
+		case 1:
+			return time.Duration(t.Intn(3000)) * time.Millisecond
+		}
+		return time.Duration(t.Intn(20000)) * time.Millisecond
+	}
+	timed := func() {
+		for n := t.Range(1, 3); n > 0; n-- {
+			l.gaps = append(l.gaps, gap())
+		}
+	}
+	switch t.Intn(7) {
+	case 0, 1, 2: // never
+	case 3:
+		timed()
+	case 4:
+		l.perMille = 30
+	case 5:
+		l.perMille = 250
+		timed()
+	default:
+		l.perMille = 1000 // (nearly) every EVALSHA meets an empty cache
+	}
+	if faulty && t.Chance(1, 4) {
+		for n := t.Range(1, 2); n > 0; n-- {
+			l.restarts = append(l.restarts, gap())
+		}
+	}
+	return l
+}
+
+func (l *cacheLoss) flush(when string) {
+	l.lost++
+	l.srv.FlushScripts()
+	l.r.Ev("scripts-lost")
+	l.r.Probe("script-cache-lost-" + when)
+	if l.r.Tracing() {
+		l.r.Logf("server: SCRIPT CACHE LOST (%s) at %v; data kept, store reachable", when, l.r.Elapsed())
+	}
+}
+
+// wrap puts the per-command draw in front of a fault policy.
+func (l *cacheLoss) wrap(inner func(*simredis.Cmd) simredis.Fault) func(*simredis.Cmd) simredis.Fault {
+	if l.perMille == 0 {
+		return inner
+	}
+	return func(c *simredis.Cmd) simredis.Fault {
+		if !c.Handshake() {
+			if v := l.r.Tape.Intn(1000); v > 0 && v <= l.perMille {
+				l.flush("as-command-left")
+			}
+		}
+		return inner(c)
+	}
+}
+
+// start launches the controller tasks (to be joined before the final phase of a run).
+func (l *cacheLoss) start() []*simrt.Task {
+	var ts []*simrt.Task
+	r := l.r
+	if len(l.gaps) > 0 {
+		ts = append(ts, r.Go("script-cache", func() {
+			for _, g := range l.gaps {
+				r.Sleep(g)
+				l.flush("at-drawn-instant")
+			}
+		}))
+	}
+	if len(l.restarts) > 0 {
+		ts = append(ts, r.Go("restarts", func() {
+			for _, g := range l.restarts {
+				r.Sleep(g)
+				l.lost++
+				l.srv.Restart()
+				r.Ev("restart")
+				r.Probe("server-restarted-with-data")
+				if r.Tracing() {
+					r.Logf("server: RESTART with persisted data at %v (connections reset, script cache empty)", r.Elapsed())
+				}
+				if l.onRestart != nil {
+					l.onRestart()
+				}
+			}
+		}))
+	}
+	return ts
+}
+
+func (l *cacheLoss) sample() map[string]any {
+	return map[string]any{"per_mille_of_commands": l.perMille, "at_drawn_instants": len(l.gaps), "restarts_with_data": len(l.restarts), "happened": l.lost}
+}
+
 func maxTime(a, b time.Time) time.Time {
 	if b.After(a) {
 		return b
